@@ -182,18 +182,13 @@ func voidTables(c *Ctx, rule string) {
 	var voidSet []string
 	voidName := ""
 	if fd := findFunc(pp, "Element", "IsVoidElement"); fd != nil {
-		ast.Inspect(fd.Body, func(n ast.Node) bool {
-			if ix, ok := n.(*ast.IndexExpr); ok {
-				if id, ok := ix.X.(*ast.Ident); ok {
-					if init := pkgVarInit(pp, id.Name); init != nil {
-						if s, ok := stringSetLiteral(pp.TypesInfo, init); ok {
-							voidSet, voidName = s, id.Name
-						}
-					}
+		for _, lk := range tableLookupsIn(pp.TypesInfo, pp.Types, fd.Body) {
+			if init := pkgVarInit(pp, lk.Name); init != nil {
+				if s, ok := stringSetLiteral(pp.TypesInfo, init); ok {
+					voidSet, voidName = s, lk.Name
 				}
 			}
-			return true
-		})
+		}
 	}
 	if voidSet == nil {
 		c.undec(rule, "void-element-table", "", "could not find the table indexed by parser.Element.IsVoidElement")
@@ -586,24 +581,16 @@ func boolAttributePresence(c *Ctx, rule string) {
 		c.viol(rule, "anchor-lost:templ.RenderAttributes", "", "templ.RenderAttributes (exported; emitted by every spread attribute) not found")
 		return
 	}
-	var ts *ast.TypeSwitchStmt
 	var loop *ast.RangeStmt
 	ast.Inspect(fd.Body, func(n ast.Node) bool {
 		if r, ok := n.(*ast.RangeStmt); ok && loop == nil {
 			loop = r
 		}
-		if t, ok := n.(*ast.TypeSwitchStmt); ok && ts == nil {
-			ts = t
-		}
 		return true
 	})
-	if ts == nil || loop == nil {
-		c.undec(rule, funcKey(p, fd)+"|type-switch", c.pos(fd.Pos()), "RenderAttributes has no loop with a type switch over the attribute value")
+	if loop == nil {
+		c.undec(rule, funcKey(p, fd)+"|type-switch", c.pos(fd.Pos()), "RenderAttributes has no loop over the attributes")
 		return
-	}
-	bound := "value"
-	if as, ok := ts.Assign.(*ast.AssignStmt); ok && len(as.Lhs) == 1 {
-		bound = types.ExprString(as.Lhs[0])
 	}
 	// the writer parameter
 	var wobj types.Object
@@ -612,10 +599,75 @@ func boolAttributePresence(c *Ctx, rule string) {
 			wobj = info.Defs[prm.Names[0]]
 		}
 	}
-	writes := func(st ast.Stmt) bool {
+	// every path through one iteration of the loop, with the atoms it took (boolean variables are followed to what
+	// they were bound to, helpers that work out what to render are followed into); a path that writes inside/after
+	// the clause of a boolean-carrying type must have taken the boolean(s) as true
+	decls := map[types.Object]*ast.FuncDecl{}
+	for _, f := range allFuncDecls(p) {
+		if f != fd && f.Recv == nil {
+			decls[info.Defs[f.Name]] = f
+		}
+	}
+	den := &denum{info: info, pkg: p.Types, inits: map[types.Object]ast.Expr{}, limit: 20000, loopBody: true, opaqueLoops: true, decls: decls, inlineVals: true}
+	den.finish(den.run(loop.Body.List, []dstate{{env: map[types.Object]ast.Expr{}}}))
+	if den.undecided != "" {
+		c.undec(rule, funcKey(p, fd)+"|paths", c.pos(fd.Pos()), "RenderAttributes: "+den.undecided)
+		return
+	}
+	// the type switch over the attribute value: the one, in the loop or in a helper it uses, that has a bool clause
+	var ts *ast.TypeSwitchStmt
+	for _, sw := range den.tsSwitch {
+		for _, cl := range sw.Body.List {
+			for _, te := range cl.(*ast.CaseClause).List {
+				if t := info.TypeOf(te); t != nil && t.String() == "bool" && (ts == nil || sw.Pos() < ts.Pos()) {
+					ts = sw
+				}
+			}
+		}
+	}
+	if ts == nil {
+		c.undec(rule, funcKey(p, fd)+"|type-switch", c.pos(fd.Pos()), "RenderAttributes has no loop with a type switch over the attribute value")
+		return
+	}
+	bound := "value"
+	if as, ok := ts.Assign.(*ast.AssignStmt); ok && len(as.Lhs) == 1 {
+		bound = types.ExprString(as.Lhs[0])
+	}
+	// does the statement write to the writer on this path? A write whose variadic list is, on this path, nil or empty
+	// writes nothing.
+	emptyList := func(e ast.Expr, env map[types.Object]ast.Expr) bool {
+		for i := 0; i < 6; i++ {
+			e = ast.Unparen(e)
+			switch x := e.(type) {
+			case *ast.Ident:
+				if x.Name == "nil" {
+					return true
+				}
+				if b, ok := env[info.ObjectOf(x)]; ok {
+					e = b
+					continue
+				}
+			case *ast.CallExpr:
+				if ob := den.callVars[x]; ob != nil {
+					if b, ok := env[ob]; ok {
+						e = b
+						continue
+					}
+				}
+			case *ast.CompositeLit:
+				return len(x.Elts) == 0
+			}
+			return false
+		}
+		return false
+	}
+	writes := func(st ast.Stmt, env map[types.Object]ast.Expr) bool {
 		found := false
 		ast.Inspect(st, func(n ast.Node) bool {
 			if call, ok := n.(*ast.CallExpr); ok {
+				if call.Ellipsis.IsValid() && len(call.Args) > 0 && emptyList(call.Args[len(call.Args)-1], env) {
+					return true
+				}
 				for _, a := range call.Args {
 					if id, ok := ast.Unparen(a).(*ast.Ident); ok && info.ObjectOf(id) == wobj && wobj != nil {
 						found = true
@@ -630,15 +682,6 @@ func boolAttributePresence(c *Ctx, rule string) {
 			return true
 		})
 		return found
-	}
-	// every path through one iteration of the loop, with the atoms it took (boolean variables are followed to what
-	// they were bound to); a path that writes inside/after the clause of a boolean-carrying type must have taken the
-	// boolean(s) as true
-	den := &denum{info: info, pkg: p.Types, inits: map[types.Object]ast.Expr{}, limit: 20000, loopBody: true, opaqueLoops: true}
-	den.finish(den.run(loop.Body.List, []dstate{{env: map[types.Object]ast.Expr{}}}))
-	if den.undecided != "" {
-		c.undec(rule, funcKey(p, fd)+"|paths", c.pos(fd.Pos()), "RenderAttributes: "+den.undecided)
-		return
 	}
 	for _, cl := range ts.Body.List {
 		cc := cl.(*ast.CaseClause)
@@ -686,7 +729,7 @@ func boolAttributePresence(c *Ctx, rule string) {
 			}
 			w := false
 			for _, st := range pth.Trace {
-				if writes(st) {
+				if writes(st, pth.Env) {
 					w = true
 				}
 			}
@@ -1037,7 +1080,7 @@ func blockTableMembers(c *Ctx, rule string) {
 						continue
 					}
 					if cl, ok := vs.Values[i].(*ast.CompositeLit); ok {
-						if _, isMap := info.TypeOf(cl).Underlying().(*types.Map); isMap {
+						if _, isSet := stringSetLiteral(info, cl); isSet && len(cl.Elts) > 0 {
 							table, tableName = cl, nm.Name
 						}
 					}
@@ -1046,16 +1089,23 @@ func blockTableMembers(c *Ctx, rule string) {
 		}
 	}
 	if table == nil {
-		c.viol(rule, "anchor-lost:block-element-table", "", "no package-level map named *block* found in parser/v2")
+		c.viol(rule, "anchor-lost:block-element-table", "", "no package-level table (map or list of constant strings) named *block* found in parser/v2")
 		return
 	}
 	n := 0
+	_, tableIsMap := info.TypeOf(table).Underlying().(*types.Map)
 	for _, el := range table.Elts {
-		kv, ok := el.(*ast.KeyValueExpr)
-		if !ok {
+		var nameExpr ast.Expr = el
+		if kv, ok := el.(*ast.KeyValueExpr); ok {
+			nameExpr = kv.Value
+			if tableIsMap {
+				nameExpr = kv.Key
+			}
+		} else if tableIsMap {
 			continue
 		}
-		name, isC := constString(info, kv.Key)
+		kv := nameExpr
+		name, isC := constString(info, nameExpr)
 		if !isC {
 			continue
 		}
@@ -1178,26 +1228,13 @@ func tableLookupsFoldCase(c *Ctx, rule string) {
 	}
 	n := 0
 	for _, fd := range allFuncDecls(pp) {
-		ast.Inspect(fd.Body, func(x ast.Node) bool {
-			ix, ok := x.(*ast.IndexExpr)
-			if !ok {
-				return true
-			}
-			id, ok := ast.Unparen(ix.X).(*ast.Ident)
-			if !ok {
-				return true
-			}
-			v, ok := info.ObjectOf(id).(*types.Var)
-			if !ok || v.Parent() != pp.Types.Scope() {
-				return true
-			}
-			mt, ok := v.Type().Underlying().(*types.Map)
-			if !ok || mt.Key().String() != "string" || !strings.HasSuffix(id.Name, "Elements") {
-				return true
+		for _, lk := range tableLookupsIn(info, pp.Types, fd.Body) {
+			if !strings.HasSuffix(lk.Name, "Elements") {
+				continue
 			}
 			n++
 			folds := false
-			ast.Inspect(ix.Index, func(y ast.Node) bool {
+			ast.Inspect(lk.Key, func(y ast.Node) bool {
 				if call, ok := y.(*ast.CallExpr); ok {
 					if fn := calleeOf(info, call); fn != nil && fullName(fn) == "strings.ToLower" {
 						folds = true
@@ -1205,10 +1242,22 @@ func tableLookupsFoldCase(c *Ctx, rule string) {
 				}
 				return true
 			})
-			c.check(folds || !upper, rule, fmt.Sprintf("%s|%s[…]|lookup-folds-case", funcKey(pp, fd), id.Name), c.pos(ix.Pos()), "the table is consulted with the lower-cased name (or names cannot contain upper-case letters)",
-				fmt.Sprintf("%s looks the element name up in %s as written, but the parser's name alphabet admits upper-case letters and the table's keys are lower-case: <bR/> or <IMG/> is not recognised as a void element and is rendered with an end tag (<bR></bR>), and a block element written <DIV> is treated as inline", fd.Name.Name, id.Name))
-			return true
-		})
+			c.check(folds || !upper, rule, fmt.Sprintf("%s|%s[…]|lookup-folds-case", funcKey(pp, fd), lk.Name), c.pos(lk.Node.Pos()), "the table is consulted with the lower-cased name (or names cannot contain upper-case letters)",
+				fmt.Sprintf("%s looks the element name up in %s as written, but the parser's name alphabet admits upper-case letters and the table's keys are lower-case: <bR/> or <IMG/> is not recognised as a void / block element and is rendered differently from <br/>", fd.Name.Name, lk.Name))
+			if lk.Sorted {
+				// a binary search finds only what is where the order says it is
+				list := stringListInOrder(info, pkgVarInit(pp, lk.Name))
+				inOrder := list != nil && sort.StringsAreSorted(list)
+				first := ""
+				for i := 1; i < len(list); i++ {
+					if list[i-1] > list[i] && first == "" {
+						first = fmt.Sprintf("%q comes before %q", list[i-1], list[i])
+					}
+				}
+				c.check(inOrder, rule, fmt.Sprintf("%s|%s|binary-search-on-sorted-list", funcKey(pp, fd), lk.Name), c.pos(lk.Node.Pos()), "the list searched by binary search is written in sorted order",
+					fmt.Sprintf("%s searches %s with a binary search, but the list is not sorted (%s): some of its elements are never found, so they stop being void / block elements", fd.Name.Name, lk.Name, first))
+			}
+		}
 	}
 	c.count("element_table_lookups", n)
 	c.floor(rule, 2)
